@@ -22,6 +22,15 @@ theorem module_checks_source_name : moduleChecksSourceName = true := by decide
 (regenerated from the source; importing first breaks this obligation) -/
 theorem stale_decided_before_import : staleDecidedBeforeImport = true := by decide
 
+/-- `_load` hands a second-chance hit to `_check` (regenerated; the model's `load` follows the flag – sequentially
+the branch is never taken, so no property theorem depends on it; the concurrent model of C16 reads the same flag) -/
+theorem second_chance_checked : secondChanceChecked = true := by decide
+
+/-- the defaults of `TemplateLookup.__init__` are the configuration the property calls the default one:
+`filesystem_checks` on, and `collection_size` equal to the value that selects the plain dict (`Cfg.cap = none`) -/
+theorem default_filesystem_checks : defaultFilesystemChecks = true := by decide
+theorem default_collection_unbounded : defaultCollectionSize = unboundedSentinel := by decide
+
 theorem threshold_den_pos : 0 < thresholdDen := by decide
 theorem sort_is_descending : sortDescending = true := by decide
 theorem slice_is_from_capacity : sliceFromCapacity = true := by decide
